@@ -166,6 +166,7 @@ class Variant:
                 "cmd": command_of(s, by_out), "pool": s.pool, "restat": s.restat, "generator": s.generator,
                 "deps": s.deps, "depfile": (s.id + ".d") if s.depfile else "", "dyndep": s.dyndep,
                 "rspfile": s.rsp[0] if s.rsp else "", "rspfile_content": s.rsp[1] if s.rsp else "",
+                "desc": s.desc or "",
             } for i, s in enumerate(self.stmts)],
         }
 
